@@ -17,7 +17,7 @@ PLANS = {
     "C05": dict(models=dict(quick=[("MC_HRaft.tla", "MC_Replication_q.cfg", 300)], thorough=[("MC_HRaft.tla", "MC_Replication.cfg", 900), ("MC_HRaft.tla", "MC_Membership.cfg", 1200)]), families=dict(quick=[("chaos", 20, 500), ("member", 16, 400), ("figure8", 8, 0), ("dupis", 9, 500)], thorough=[("chaos", 160, 800), ("member", 120, 600), ("figure8", 64, 0), ("dupis", 48, 500)]), suites=["l1:commitment"]),
     "C06": dict(models=dict(quick=[("MC_HRaft.tla", "MC_Crash_q.cfg", 300)], thorough=[("MC_HRaft.tla", "MC_Crash.cfg", 900), ("MC_HRaft.tla", "MC_Election.cfg", 900)]), families=dict(quick=[("elect", 16, 400), ("voterestart", 6, 0)], thorough=[("elect", 240, 600), ("chaos", 80, 600), ("voterestart", 32, 0)]), suites=["l2:vote", "l2:vote2", "l2:vote3"]),
     "C07": dict(models=dict(quick=[("MC_HRaft.tla", "MC_Membership_q.cfg", 300)], thorough=[("MC_HRaft.tla", "MC_Membership.cfg", 1200)]), families=dict(quick=[("member", 24, 400), ("cfgtrunc", 8, 0), ("snapmember", 8, 400), ("demoteelect", 8, 0)], thorough=[("member", 240, 600), ("cfgtrunc", 32, 0), ("snapmember", 80, 500), ("demoteelect", 48, 0)]), suites=["l1:configuration"]),
-    "C08": dict(families=dict(quick=[("client", 32, 400)], thorough=[("client", 240, 600), ("chaos", 80, 600)])),
+    "C08": dict(families=dict(quick=[("client", 32, 400), ("barrierrace", 8, 0)], thorough=[("client", 240, 600), ("chaos", 80, 600), ("barrierrace", 48, 0)])),
     "C09": dict(families=dict(quick=[("verify", 32, 400), ("member", 8, 400)], thorough=[("verify", 240, 600), ("member", 80, 500)])),
     "C10": dict(models=dict(quick=[], thorough=[("MC_HRaft.tla", "MC_Crash.cfg", 900)]), families=dict(quick=[("restart", 24, 400), ("snapcfgrace", 12, 0), ("snapmember", 8, 400)], thorough=[("restart", 240, 600), ("snap", 80, 600), ("snapcfgrace", 96, 0), ("snapmember", 80, 500)]), suites=["l2:restart"]),
     "C11": dict(models=dict(quick=[("MC_HRaft.tla", "MC_Snapshot_q.cfg", 300)], thorough=[("MC_HRaft.tla", "MC_Snapshot_q.cfg", 900)]), families=dict(quick=[("snap", 24, 400), ("restart", 16, 400), ("snapcfgrace", 12, 0)], thorough=[("snap", 200, 700), ("restart", 160, 600), ("restore", 60, 500), ("snapcfgrace", 96, 0), ("snapmember", 80, 500)]), suites=["l1:compaction"]),
